@@ -5,9 +5,11 @@ import random
 LEVEL = 'exploration'
 RULE = ('all 2^7 subsets of {--gc (1-3 values), -G flag(s), --coverage, '
         '--profile cProfile, --buffer, warnings= argument, -D with scripted '
-        'stdin} x 8 endings {normal, failing tests, exception from a layer '
-        'testSetUp hook, exception from a layer testTearDown hook, '
-        'KeyboardInterrupt in a test body / setUp / tearDown, -x} = 1024 '
+        'stdin} x 13 endings {normal, failing tests, exception from a layer '
+        'testSetUp hook, exception from a layer testTearDown hook (also '
+        'around a test skipped in body/setUp, interrupted, or with several '
+        'result events), KeyboardInterrupt in a test body / setUp / '
+        'tearDown, -x} = 1664 '
         'cases, exhaustive in both tiers (thorough repeats them with 3 more '
         'parameter seeds). A snapshot of gc thresholds/debug flags, '
         'traceback.format_exception/print_exception, sys.gettrace, '
@@ -21,13 +23,18 @@ RULE = ('all 2^7 subsets of {--gc (1-3 values), -G flag(s), --coverage, '
 ASSUMPTIONS = ['-D is driven by a scripted stdin answering "c"',
                'state not named in the property (sys.path, logging handlers, '
                'sys.modules) is not compared']
-FLOORS = {'snapshots_compared': 900, 'effective_option_cases': 600,
-          'aborted_runs': 200, 'kbint_runs': 200, 'option_effect_probes': 900}
+FLOORS = {'snapshots_compared': 1500, 'effective_option_cases': 1000,
+          'aborted_runs': 500, 'kbint_runs': 300, 'option_effect_probes': 1400}
 BATCH_TIMEOUT = 600
 
 OPTS = ['gc', 'gcopt', 'coverage', 'profile', 'buffer', 'warnings', 'pm']
 ENDINGS = ['normal', 'failing', 'testSetUp_raises', 'testTearDown_raises',
-           'kbint_body', 'kbint_setUp', 'kbint_tearDown', 'stop']
+           'kbint_body', 'kbint_setUp', 'kbint_tearDown', 'stop',
+           # a per-test hook raising around a test that produced no
+           # pass/fail event yet (skip, interrupt) or several events
+           'skipbody+testTearDown_raises', 'skipsetup+testTearDown_raises',
+           'kbint_body+testTearDown_raises', 'multi+testTearDown_raises',
+           'subskip+testSetUp_raises']
 
 
 def EXHAUSTIVE(tier):
@@ -129,9 +136,20 @@ def run_case(case):
         layers[0]['hooks']['testSetUp'] = {'beh': 'ok', 'actions': []}
         plan = {'layers': {'Base': {'testSetUp': 'ok'}}}
     elif ending.startswith('kbint'):
-        ph = ending.split('_')[1]
+        ph = ending.split('+')[0].split('_')[1]
         t1['actions'].append({'ph': ph, 'do': 'raise_base',
                               'exc': 'KeyboardInterrupt'})
+    if ending.startswith('skipbody'):
+        t1['kind'] = 'skip_body'
+    elif ending.startswith('skipsetup'):
+        t1['kind'] = 'skip_setup'
+    elif ending.startswith('multi'):
+        t1['kind'] = rng.choice(['body_teardown_error', 'subtests',
+                                 'fail_teardown_error'])
+        t1['subs'] = ['F', 'S', 'E']
+    elif ending.startswith('subskip'):
+        t0['kind'] = 'subtests'
+        t0['subs'] = ['S', 'P']
     argv = []
     warn = None
     effects = {}
@@ -168,9 +186,9 @@ def run_case(case):
     spec = gen.simple_world(prefix, layers, {'Base': [t0, t1, t2]})
     # per-test hook that raises on its 2nd call is expressed through a plan
     # variant: the hook raises always, but only for endings that want it
-    if ending == 'testSetUp_raises':
+    if ending.endswith('testSetUp_raises'):
         plan = {'layers': {'Base': {'testSetUp': 'nth:2:raise:ValueError'}}}
-    elif ending == 'testTearDown_raises':
+    elif ending.endswith('testTearDown_raises'):
         plan = {'layers': {'Base': {'testTearDown': 'nth:2:raise:KeyError'}}}
     before = {}
     after = {}
